@@ -289,6 +289,10 @@ theorem body_caps (cfg : Cfg) (st : St) (pfx : Str) (c : Cmd) (hc : c ≠ .flush
   | defaultCapAdd cap => apply lift; simp only [body]; keeps_auto (triv 0)
   | defaultCapRemove cap => apply lift; simp only [body]; keeps_auto (triv 0)
   | configCaps v => apply lift; simp only [body]; keeps_auto (triv 0)
+  | flushAll => apply lift; simp only [body, flushAllSt]; keeps_auto (triv 0)
+  | upkeep on => apply lift; simp only [body, flushAllSt]; keeps_auto (triv 0)
+  | chanDisable chan plugin command => apply lift; simp only [body]; keeps_auto (triv 0)
+  | chanEnable chan plugin command => apply lift; simp only [body]; keeps_auto (triv 0)
   | capAdd name cap0 =>
     simp only [body]
     refine withOther_ind (fun r => ∀ p ∈ r.1.users, ∀ x ∈ p.2.caps,
@@ -613,6 +617,10 @@ theorem body_safe (cfg : Cfg) (hcfg : HashSafe cfg) (st : St) (pfx : Str) (hpfx 
   | defaultCapAdd cap => simp only [body]; safe_auto h, triv
   | defaultCapRemove cap => simp only [body]; safe_auto h, triv
   | configCaps v => simp only [body]; safe_auto h, triv
+  | flushAll => simp only [body, flushAllSt]; safe_auto h, triv
+  | upkeep on => simp only [body, flushAllSt]; safe_auto h, triv
+  | chanDisable chan plugin command => simp only [body]; safe_auto h, triv
+  | chanEnable chan plugin command => simp only [body]; safe_auto h, triv
 
 /-! ### commands never touch the reader's class attribute -/
 
@@ -724,6 +732,10 @@ theorem body_cu (cfg : Cfg) (st : St) (pfx : Str) (c : Cmd) (hc : c ≠ .flushRe
   | defaultCapAdd cap => simp only [body]; cu_auto
   | defaultCapRemove cap => simp only [body]; cu_auto
   | configCaps v => simp only [body]; cu_auto
+  | flushAll => simp only [body, flushAllSt]; cu_auto
+  | upkeep on => simp only [body, flushAllSt]; cu_auto
+  | chanDisable chan plugin command => simp only [body]; cu_auto
+  | chanEnable chan plugin command => simp only [body]; cu_auto
 
 /-! ## the saved users.conf never holds a capability that memory has dropped -/
 
@@ -1123,6 +1135,10 @@ theorem body_ids (cfg : Cfg) (st : St) (pfx : Str) (c : Cmd) (hc : c ≠ .flushR
   | defaultCapAdd cap => simp only [body]; ids_auto h, triv
   | defaultCapRemove cap => simp only [body]; ids_auto h, triv
   | configCaps v => simp only [body]; ids_auto h, triv
+  | flushAll => simp only [body, flushAllSt]; ids_auto h, triv
+  | upkeep on => simp only [body, flushAllSt]; ids_auto h, triv
+  | chanDisable chan plugin command => simp only [body]; ids_auto h, triv
+  | chanEnable chan plugin command => simp only [body]; ids_auto h, triv
 
 /-! ### what each command does to the saved file -/
 
@@ -1272,5 +1288,9 @@ theorem body_shape (cfg : Cfg) (st : St) (pfx : Str) (c : Cmd) (hc : c ≠ .flus
   | defaultCapAdd cap => simp only [body]; shape_auto triv
   | defaultCapRemove cap => simp only [body]; shape_auto triv
   | configCaps v => simp only [body]; shape_auto triv
+  | flushAll => simp only [body, flushAllSt]; shape_auto triv
+  | upkeep on => simp only [body, flushAllSt]; shape_auto triv
+  | chanDisable chan plugin command => simp only [body]; shape_auto triv
+  | chanEnable chan plugin command => simp only [body]; shape_auto triv
 
 end C02
